@@ -249,8 +249,10 @@ func c05LogErr(f []string) string {
 
 // closelag <files> <readers> <tries>: the real OpenFilesToChan over <files> one-line files, <tries> times; right after
 // the batch channel was closed (every reader has called wg.Done()) the status must show no active file and
-// files/files read.  The source calls stopFileReading AFTER wg.Done(), so once in a few hundred runs it does not
-// (known finding; Props: close_status_lag_counterexample).  Only run from the corpus (the witness is a search).
+// files/files read (Props: close_status_complete).  Until /repo 7025f4b the source called stopFileReading AFTER
+// wg.Done(), so once in a few hundred runs it did not (finding "closelag", fixed; Props:
+// close_status_lag_counterexample about the old order).  The long search runs from the corpus
+// (corpus/C05/closelag.case); the generator adds a short one per round.
 func c05CloseLag(f []string) string {
 	if len(f) < 4 {
 		return "bad-args"
@@ -294,6 +296,11 @@ func c05LoggerGen(r *Rand, tier string) []string {
 		n = 25
 	}
 	var out []string
+	if tier == "thorough" {
+		out = append(out, fmt.Sprintf("closelag %d %d 3000", Pick(r, []int{2, 6, 12}), Pick(r, []int{1, 3, 6})))
+	} else {
+		out = append(out, fmt.Sprintf("closelag %d %d 400", Pick(r, []int{2, 6, 12}), Pick(r, []int{1, 3, 6})))
+	}
 	for i := 0; i < n; i++ {
 		ctl := Pick(r, []string{".", "D", "DI", "DID", "DIDIDI", "I", "DD", "IDI"})
 		out = append(out, fmt.Sprintf("logger %d %d %s", Pick(r, []int{1, 2, 4, 8, 16}), Pick(r, []int{1, 5, 20}), ctl))
